@@ -545,3 +545,7 @@ H("C16", "vk_vm", "c15_mount_correct_p0", desc="the second FAT is located at fir
 
 H("C06", "vk_codec", "c18_direntry_roundtrip_fat32", desc="an entry with the directory attribute and cluster 0 ('..' of a first-level directory) decodes to the root directory on FAT32, so open_dir('..') leads to the directory the entry designates", bounds="see C18")
 H("C06", "vk_codec", "c18_direntry_roundtrip_fat16", desc="same on FAT16", bounds="see C18")
+
+for n, t in [("c11_read_fault_fat", "thorough"), ("c11_read_fault_second_block", "quick"), ("c11_read_fault_first_block", "thorough")]:
+    H("C11", "vk_fsop", n, tier=t, desc="VolumeManager::read across a cluster boundary with one failing, scribbling device call (data block / FAT sector / second data block): DeviceError reported; handle still usable; after seeking back the retried read returns the file's bytes", bounds="file contents fully symbolic; chain 3->5->2, offset 510, 4 bytes; fault index concrete per instance", unwindset=UW_FILE, timeout=1200, cost=3, mem_gb=24)
+PROPS["C11"]["bounds"] += "; VolumeManager::read across a cluster boundary with the fault on the data block / the FAT sector / the second data block, then seek back and retry"
